@@ -34,6 +34,9 @@ ConformOk    == Live => Last.ok = B(last.ok)
 \* a found secret is the counterparty's real one exactly when the model says so
 ConformValue == (Live /\ Last.a = "Lookup" /\ last.ok) => Last.isgood = B(last.fam = "good")
 \* lenBuckets, next index and the encoded size (1 + 40*len + 8 bytes)
+\* C06 "the secrets it sends follow its own derivation chain": the producer's answer for the next index equals an
+\* independent BOLT-3 derivation from the seed (Go-side oracle bit), also after the caller changed a returned value
+ProducerExact == Live => Last.pexact = 1
 ConformState == Live => /\ Last.nb = len
                         /\ (~full => Idx(Last.nidx) = index)
                         /\ Last.enc = 1 + 40 * len + 8
